@@ -52,7 +52,10 @@ for _n in (1, 2, 3, 4):
 FORMS = ('auto', 'list', 'tuple', 'scen', 'loc', 'iloc')
 CORE_FORMS = ('auto', 'list', 'tuple')
 COMBS = ('add', 'radd', 'sub', 'concat', 'rstack', 'vec', 'idxadd', 'abs+', '+abs', 'norm+', 'sq+', 'exp+',
-         'mulz+', '+mulz', 'add3', 'scale+')
+         'mulz+', '+mulz', 'add3', 'scale+',
+         # constraints and atoms OF the combined expression
+         'le', 'ge', 'eq', 'abs()', 'norm()', 'sumsqr()', 'exp()', 'abs()<=', 'expcone', 'expcone3', '()*z', '()@z<=')
+COMBS_CORE = ('add', 'radd', 'sub', 'concat', 'le', 'abs()', 'mulz+', 'expcone')
 MASK_SPECS_Q = [('ro', 'z3', 2), ('ro', 'z2w', 2), ('ro', 'z2', 1), ('ro', 'wz2', 2),
                 ('dro1', 'z3', 2), ('dro2', 'z2w', 2), ('dro2', 'z2', 2), ('dro1', 'z2', 1), ('dro3', 'z2', 2)]
 MASK_SPECS_T = MASK_SPECS_Q + [('ro', 'z2', 2), ('ro', 'z1', 2), ('dro2', 'z3', 2), ('dro1', 'wz2', 2), ('dro3', 'z2w', 2)]
@@ -60,6 +63,9 @@ MASK_SPECS_T = MASK_SPECS_Q + [('ro', 'z2', 2), ('ro', 'z1', 2), ('dro2', 'z3', 
 # has the partition {0..S-2},{S-1}): static, finer (all singletons), other ({0},{1..S-1})
 AUX_VARIANTS = {1: ('none',), 2: ('none', 'static', 'static-before'),
                 3: ('none', 'static', 'finer', 'other', 'finer-before', 'other-before')}
+# adapt histories of the adaptive decision itself (3 scenarios): the default {0,1},{2} is listed in scenario order; the
+# others are interleaved / listed out of scenario order: [[0,2],[1]], [[1],[0,2]], [[1,2],[0]], [[2],[1],[0]]
+YHIST_VARIANTS = ([[1]], [[0, 2]], [[0]], [[1], [0]])
 RO_USES = ('to_affine', 'add', 'radd', 'neg', 'mul', 'matmul', 'sub_add', 'le', 'ge', 'eq', 'st', 'T', 'sum', 'min',
            'reshape')
 RO_NONUSES = ('getitem', 'shape')
@@ -147,6 +153,14 @@ def _gen_all(tier, seed):
                         if aux != 'none':
                             case['aux'] = aux
                         yield case
+                    if fe == 'dro3':
+                        for yh in YHIST_VARIANTS:
+                            for aux in ('none', 'static'):
+                                case = {'fam': 'mask', 'fe': fe, 'rl': rl, 'rows': nrows, 'seq': [[r, c] for r, c in seq],
+                                        'style': st, 'pal': pl, 'yh': yh}
+                                if aux != 'none':
+                                    case['aux'] = aux
+                                yield case
     for fe, rl, nrows in (('ro', 'z3', 2), ('dro1', 'z3', 2), ('ro', 'z2w', 2), ('dro2', 'z2w', 2), ('ro', 'z2', 1),
                           ('dro1', 'z2', 1)):
         d = sum(max(s, 1) for s in RAND_LAYOUTS[rl])
@@ -159,14 +173,26 @@ def _gen_all(tier, seed):
                 if P.rect_cells(bad) & used:
                     yield {'fam': 'maskill', 'fe': fe, 'rl': rl, 'rows': nrows, 'seq': [[r, c] for r, c in seq],
                            'bad': [bad[0], bad[1]]}
-    # ---- pairs of partitions
-    for n in ns:
-        if n < 2:
-            continue
+    # ---- pairs of partitions (S = 4 also in the quick tier: no solve needed for the partition calculus)
+    for n in (2, 3, 4):
         parts = P.set_partitions(n)
+        # every ordered pair of partitions, each in every listing order of its events (n <= 3; n = 4: thorough, core
+        # combiners) and in the canonical listing (remainder first) declared the ordinary way
+        lists = P.listing_histories(n)
+        if n <= 3 or th:
+            for h1, h2 in itertools.product(lists, repeat=2):
+                for comb in (COMBS if n <= 3 else COMBS_CORE):
+                    yield {'fam': 'pair', 'n': n, 'h1': h1, 'h2': h2, 'comb': comb}
+                if n <= 3:
+                    yield {'fam': 'pairval', 'n': n, 'h1': h1, 'h2': h2, 'pal': pal}
         for i, j in itertools.product(range(len(parts)), repeat=2):
+            h1, h2 = P.canonical_history(parts[i], n), P.canonical_history(parts[j], n)
             for comb in COMBS:
-                yield {'fam': 'pair', 'n': n, 'p1': parts[i], 'p2': parts[j], 'comb': comb, 'pal': pal}
+                yield {'fam': 'pair', 'n': n, 'h1': h1, 'h2': h2, 'comb': comb}
+            if n >= 4 and th:
+                yield {'fam': 'pairval', 'n': n, 'h1': h1, 'h2': h2, 'pal': pal}
+            if n == 4 and not th:
+                continue
             for model in ('sum', 'abs'):
                 for pl in pals:
                     yield {'fam': 'pairopt', 'n': n, 'p1': parts[i], 'p2': parts[j], 'model': model, 'pal': pl}
@@ -200,7 +226,9 @@ def bounds(tier):
     return {'scenarios_max': 4 if th else 3, 'histories': {n: len(P.adapt_histories(n)) for n in _ns(tier)},
             'labels': list(P.LABEL_KINDS), 'block_forms': list(FORMS),
             'mask_cells_max': 6, 'mask_sequence_len_max': 4 if th else 3, 'mask_specs': len(MASK_SPECS_T if th else MASK_SPECS_Q),
-            'partition_pairs': {n: len(P.set_partitions(n)) ** 2 for n in _ns(tier) if n >= 2}, 'combiners': len(COMBS),
+            'partition_pairs': {n: len(P.set_partitions(n)) ** 2 for n in (2, 3, 4)},
+            'partition_listing_pairs': {n: len(P.listing_histories(n)) ** 2 for n in ((2, 3, 4) if th else (2, 3))},
+            'combiners': len(COMBS),
             'palettes': 4 if th else 1}
 
 
@@ -458,15 +486,19 @@ def _run_mask(case):
             _aux_adapt(auxv, aux, S)
             ops(2)
         y = m.dvar() if nrows == 1 else m.dvar(nrows)
-        hist = [[S - 1]] if S >= 2 else []
+        hist = case.get('yh') or ([[S - 1]] if S >= 2 else [])
         part = P.declared_partition(hist, S)
-        tau_s = [3.0 if (S >= 2 and s_ == S - 1) else 2.0 for s_ in range(S)]
+        blocks = sorted(part, key=min)
+        tau_s = [2.0 + [bi for bi, b in enumerate(blocks) if s_ in b][0] for s_ in range(S)]
         fac = [1.0 + t_ / 4.0 for t_ in tau_s]
+        if case.get('yh'):
+            tag += '|events %s' % P.fmt_hist(P.reference_event_order(hist, S))
     tau = m.dvar() if nrows == 1 else m.dvar(nrows)
     if not is_ro and S >= 2:
-        y.adapt(S - 1)
-        tau.adapt(S - 1)          # the residual bound is event-wise too, so every event is pinned on its own
-        ops(2)
+        for blk in hist:          # the residual bound is event-wise too, so every event is pinned on its own
+            y.adapt(blk[0] if len(blk) == 1 else list(blk))
+            tau.adapt(blk[0] if len(blk) == 1 else list(blk))
+            ops(2)
     if aux != 'none' and not aux.endswith('-before'):
         auxv = m.dvar()           # the LAST declared decision has another partition than the adaptive one
         _aux_adapt(auxv, aux, S)
@@ -574,6 +606,7 @@ def _run_mask(case):
                     return _viol(tag + '|different events share coefficient columns', '%s' % (ccols,), ops.n)
     # ---- coefficient queries: NaN exactly off-mask
     yshape = () if nrows == 1 else (nrows,)
+    full = [np.full((nrows, d), np.nan) for _ in range(S)]
     for rv, comps in rvars + mirrors:
         is_mirror = any(rv is mv for mv, _ in mirrors)
         try:
@@ -597,6 +630,29 @@ def _run_mask(case):
             if not np.allclose(cf2[mm == 1], fac[s_] * B[:, comps][mm == 1], rtol=0, atol=1e-6 * 60):
                 return _viol(tag + '|coefficient value', 'mask %s comps %s scenario %d: coefficients %s expected %s' %
                              (mask.tolist(), comps, s_, cf2.tolist(), (fac[s_] * B[:, comps]).tolist()), ops.n)
+            if not is_mirror:
+                full[s_][:, comps] = cf2
+    # ---- the rule reported by get() / get(z): identical inside an event, and it is the rule the model enforces
+    vq = np.array([0.5, -0.25, 0.75])[:d]
+    try:
+        c0 = y.get()
+        ops()
+        c0s = [np.asarray(c, dtype=float).reshape(nrows) for c in (list(c0) if isinstance(c0, pd.Series) else [c0] * S)]
+    except Exception as ex:  # noqa
+        return _viol(tag + '|constant query raised', '%s %s' % (Bd.errname(ex), ex), ops.n)
+    for s_ in range(S):
+        for t_ in range(S):
+            if P.same_block(part, s_, t_) and not (np.allclose(c0s[s_], c0s[t_], atol=1e-9) and
+                                                   np.allclose(full[s_], full[t_], atol=1e-9, equal_nan=True)):
+                return _viol(tag + '|reported rule differs between scenarios of one event',
+                             'scenarios %d,%d: %s + %s z  vs  %s + %s z' % (s_, t_, c0s[s_].tolist(), full[s_].tolist(),
+                                                                           c0s[t_].tolist(), full[t_].tolist()), ops.n)
+        recon = c0s[s_] + np.nan_to_num(full[s_]) @ vq
+        want_v = a + fac[s_] * ((B * mask) @ vq)
+        if not np.allclose(recon, want_v, rtol=0, atol=1e-6 * 60):
+            return _viol(tag + '|reported rule get()+get(z)@z is not the enforced rule',
+                         'mask %s scenario %d at z=%s: %s expected %s' % (mask.tolist(), s_, vq.tolist(), recon.tolist(),
+                                                                        want_v.tolist()), ops.n)
     # ---- the returned rule ignores components it was not declared to depend on
     v1 = np.array([0.5, -0.25, 0.75])[:d]
 
@@ -675,6 +731,11 @@ def _declare_part(v, part):
         v.adapt(blk[0] if len(blk) == 1 else list(blk))
 
 
+def _declare_hist(v, hist):
+    for blk in hist:
+        v.adapt(blk[0] if len(blk) == 1 else list(blk))
+
+
 def _combine(comb, x, y, q, z, rso):
     if comb == 'add':
         return x + y
@@ -708,6 +769,30 @@ def _combine(comb, x, y, q, z, rso):
         return (x + q) + y
     if comb == 'scale+':
         return 3 * x + (y @ np.array([[1.0, 2.0], [0.5, 1.0]]))
+    if comb == 'le':
+        return x + y <= 1
+    if comb == 'ge':
+        return x >= y
+    if comb == 'eq':
+        return x - y == 1
+    if comb == 'abs()':
+        return abs(x + y)
+    if comb == 'norm()':
+        return rso.norm(x - y)
+    if comb == 'sumsqr()':
+        return rso.sumsqr(y + x)
+    if comb == 'exp()':
+        return rso.exp(x + y)
+    if comb == 'abs()<=':
+        return abs(x + y) <= 3
+    if comb == 'expcone':
+        return rso.expcone(x[0], y[1], 1)
+    if comb == 'expcone3':
+        return rso.expcone(q[0], x[0], y[1])
+    if comb == '()*z':
+        return (x + y) * z
+    if comb == '()@z<=':
+        return (x + y) @ z <= 1
     raise ValueError(comb)
 
 
@@ -715,7 +800,8 @@ def _run_pair(case):
     Bd = _rs['B']
     rso = _rs['rso']
     n, comb = case['n'], case['comb']
-    p1, p2 = P.as_partition(case['p1']), P.as_partition(case['p2'])
+    h1, h2 = case['h1'], case['h2']
+    p1, p2 = P.declared_partition(h1, n), P.declared_partition(h2, n)
     ops = Bd.Ops()
     m = _rs['dro'].Model(n)
     x = m.dvar(2)
@@ -723,10 +809,12 @@ def _run_pair(case):
     y = m.dvar(2)
     z = m.rvar(2)
     ops(5)
-    _declare_part(x, case['p1'])
-    _declare_part(y, case['p2'])
-    ops(len(case['p1']) + len(case['p2']) - 2)
-    if P.as_partition(x.event_adapt) != p1 or P.as_partition(y.event_adapt) != p2:
+    _declare_hist(x, h1)
+    _declare_hist(y, h2)
+    ops(len(h1) + len(h2))
+    # operands: the declared partition AND the listing order of the reference bookkeeping (the case is about that order)
+    if ([sorted(b) for b in x.event_adapt] != [sorted(b) for b in P.reference_event_order(h1, n)] or
+            [sorted(b) for b in y.event_adapt] != [sorted(b) for b in P.reference_event_order(h2, n)]):
         return {'status': 'vacuous', 'outcome': 'pair:operands not established', 'ops': ops.n}
     tag = 'pair|%s' % comb
     try:
@@ -740,12 +828,73 @@ def _run_pair(case):
         return _viol(tag + '|no event_adapt on the combined expression', type(e).__name__, ops.n)
     if not P.is_partition_of(ea, n) or P.as_partition(ea) != want:
         return _viol(tag + '|event_adapt differs from the coarsest common refinement',
-                     '%s with %s: event_adapt %s expected %s' % (P.fmt_part(p1), P.fmt_part(p2), ea, P.fmt_part(want)), ops.n)
+                     'x events %s with y events %s: event_adapt %s expected %s' % (x.event_adapt, y.event_adapt, ea,
+                                                                                    P.fmt_part(want)), ops.n)
     if P.as_partition(x.event_adapt) != p1 or P.as_partition(y.event_adapt) != p2:
         return _viol(tag + '|operand partition changed by combining',
                      'x %s y %s' % (x.event_adapt, y.event_adapt), ops.n)
     return {'status': 'pass', 'outcome': 'pair:ok blocks=%d' % len(want), 'ops': ops.n,
             'nontrivial': len(want) > max(len(p1), len(p2)) or p1 != p2, 'validated': 1}
+
+
+def _scen_list(obs, n):
+    """Per-scenario list of a query result (Series by position for default labels, or a plain value for all)."""
+    pd = _rs['pd']
+    if isinstance(obs, pd.Series):
+        if len(obs) != n or list(obs.index) != list(range(n)):
+            return None
+        return [np.asarray(obs.loc[i], dtype=float) for i in range(n)]
+    return [np.asarray(obs, dtype=float)] * n
+
+
+def _run_pairval(case):
+    """Solved model with two pinned event-wise decisions whose event lists are in the given orders: the value of every
+    combined expression in scenario s is the combination of x(s) and y(s) (read from the raw solver vector)."""
+    Bd = _rs['B']
+    rso = _rs['rso']
+    n, h1, h2 = case['n'], case['h1'], case['h2']
+    specs = [{'name': 'x', 'shape': (2,), 'hist': h1, 'ind': True}, {'name': 'y', 'shape': (2,), 'hist': h2, 'ind': True},
+             {'name': 'q', 'shape': ()}]
+    try:
+        env = Bd.Env('dro%d' % n, specs, case['pal'], 'eq', 'min', objform='E', positive=True)
+        ok = env.solve()
+    except Exception as ex:  # noqa
+        return _viol('pairval|legal model failed to formulate', '%s %s' % (Bd.errname(ex), ex), 0)
+    if not ok:
+        return {'status': 'vacuous', 'outcome': 'pairval:not optimal', 'ops': env.ops.n}
+    bad = env.check_raw()
+    if bad:
+        return _viol('pairval|raw solver vector does not hold the pinned optimum at the reference positions', bad, env.ops.n)
+    got, want = float(env.m.get()), env.expected_objective()
+    if not _close(got, want):
+        return _viol('pairval|expectation objective differs from closed form', '%r vs %r' % (got, want), env.ops.n)
+    x, y = env.vars['x'], env.vars['y']
+    rx = [env.raw('x', s_) for s_ in range(n)]
+    ry = [env.raw('y', s_) for s_ in range(n)]
+    items = [('x+y', lambda: (x + y)(), lambda a, b: a + b), ('y+x', lambda: (y + x)(), lambda a, b: a + b),
+             ('x-2*y', lambda: (x - 2 * y)(), lambda a, b: a - 2 * b),
+             ('concat', lambda: rso.concat((x, y))(), lambda a, b: np.concatenate([a, b])),
+             ('abs(x-y)', lambda: abs(x - y)(), lambda a, b: np.abs(a - b)),
+             ('x[0]+y[1]', lambda: (x[0] + y[1])(), lambda a, b: a[0] + b[1])]
+    nok = 0
+    for name, fn, ref in items:
+        try:
+            obs = fn()
+            env.ops()
+        except Exception:  # noqa
+            continue
+        vals = _scen_list(obs, n)
+        exps = [np.asarray(ref(rx[s_], ry[s_]), dtype=float) for s_ in range(n)]
+        if vals is None or any(v.shape != e.shape or not np.allclose(v, e, rtol=0, atol=1e-9 * (1 + np.abs(e).max()))
+                               for v, e in zip(vals, exps)):
+            return _viol('pairval|%s|per-scenario value differs from the combination of the operands' % name,
+                         'x events %s y events %s: observed %s expected %s' %
+                         (x.event_adapt, y.event_adapt, obs if vals is None else [v.tolist() for v in vals],
+                          [e.tolist() for e in exps]), env.ops.n)
+        nok += 1
+    if nok == 0:
+        return {'status': 'unsupported', 'outcome': 'pairval:every expression call raises', 'ops': env.ops.n}
+    return {'status': 'pass', 'outcome': 'pairval:ok', 'ops': env.ops.n, 'nontrivial': n >= 2, 'validated': nok}
 
 
 def _run_pairopt(case):
